@@ -1,6 +1,9 @@
 use std::io::Cursor;
 use std::sync::Arc;
+#[cfg(not(octo_squirrel_verif_shuttle))]
 use std::sync::Mutex;
+#[cfg(octo_squirrel_verif_shuttle)]
+use shuttle::sync::Mutex;
 use std::time::Duration;
 
 use anyhow::anyhow;
